@@ -110,31 +110,40 @@ def main():
             if half:
                 cpu_cap = min(cpu_cap, ratio * half['cpu'] + cfg['cpu_slack'])
             emit({'ev': 'start', 'n': n, 'q': q, 'item_cap': item_cap, 'cpu_cap': cpu_cap})
-            counter.reset(item_cap)
-            if infer_counter is not None:
-                infer_counter.reset()
-            outcome, names, err = 'ok', [], None
-            t0 = time.process_time()
-            signal.setitimer(signal.ITIMER_PROF, cpu_cap + 0.05)
-            try:
+            # CPU seconds are noisy on a loaded (virtual) machine, a real blow-up is not: a CPU
+            # cut-off only counts when it repeats on every attempt; the counters are deterministic
+            attempts = []
+            for attempt in range(cfg.get('cpu_attempts', 3)):
+                counter.reset(item_cap)
+                if infer_counter is not None:
+                    infer_counter.reset()
+                outcome, names, err = 'ok', [], None
+                t0 = time.process_time()
+                signal.setitimer(signal.ITIMER_PROF, cpu_cap + 0.05)
                 try:
-                    r = getattr(jedi.Script(text), q)(line, col)
-                    names = [d.name for d in r]
-                finally:
-                    signal.setitimer(signal.ITIMER_PROF, 0)
-            except WorkCap:
-                outcome = 'items-cap'
-            except CpuCap:
-                outcome = 'cpu-cap'
-            except RecursionError as e:
-                outcome, err = 'RecursionError', repr(e)[:200]
-            except Exception as e:
-                outcome, err = 'raised', '%s: %s' % (type(e).__name__, str(e)[:200])
-            cpu = time.process_time() - t0
+                    try:
+                        r = getattr(jedi.Script(text), q)(line, col)
+                        names = [d.name for d in r]
+                    finally:
+                        signal.setitimer(signal.ITIMER_PROF, 0)
+                except WorkCap:
+                    outcome = 'items-cap'
+                except CpuCap:
+                    outcome = 'cpu-cap'
+                except RecursionError as e:
+                    outcome, err = 'RecursionError', repr(e)[:200]
+                except Exception as e:
+                    outcome, err = 'raised', '%s: %s' % (type(e).__name__, str(e)[:200])
+                cpu = time.process_time() - t0
+                attempts.append(round(cpu, 3))
+                if outcome != 'cpu-cap':
+                    break
+                emit({'ev': 'note', 'note': 'cpu cut-off at n=%d %s, attempt %d' % (n, q, attempt + 1)})
+            cpu = min(attempts) if outcome == 'cpu-cap' else cpu
             row = {'ev': 'done', 'n': n, 'q': q, 'classes': nclasses, 'items': counter.items,
                    'listings': counter.listings, 'maxlen': counter.maxlen,
                    'entries': infer_counter.total if infer_counter is not None else None,
-                   'cpu': round(cpu, 4), 'outcome': outcome, 'results': len(names),
+                   'cpu': round(cpu, 4), 'cpu_attempts': attempts, 'outcome': outcome, 'results': len(names),
                    'names': sorted(names)[:4], 'error': err, 'item_cap': item_cap, 'cpu_cap': cpu_cap,
                    'line': line, 'column': col}
             emit(row)
